@@ -470,12 +470,18 @@ func hasNullValue(rv reflect.Value) bool {
 		toMap, err := utils.StructToMap(rv.Interface())
 		return err == nil && hasNullValue(reflect.ValueOf(toMap))
 	case reflect.Map:
+		if rv.IsNil() { // encoded as null
+			return true
+		}
 		for iter := rv.MapRange(); iter.Next(); {
 			if hasNullValue(iter.Value()) {
 				return true
 			}
 		}
 	case reflect.Slice, reflect.Array:
+		if rv.Kind() == reflect.Slice && rv.IsNil() { // encoded as null
+			return true
+		}
 		for i := 0; i < rv.Len(); i++ {
 			if hasNullValue(rv.Index(i)) {
 				return true
